@@ -27,7 +27,10 @@ RULE = ("ices {Antarctic, Arasim, Greenland, random (n0,k,a)} x endpoint pairs d
         "non-default / None index_above, index_below; an endpoint outside the valid range (no solutions allowed); the "
         "same endpoints traced back to back in every ice model; one tracer object re-used by reassigning from_point / "
         "to_point / dz (query-reassign-query sequences of three geometries, first geometry cycling through the "
-        "classes); paths of the previous case re-read after the next tracer was solved (several live handles); plus "
+        "classes); paths of the previous case re-read after the next tracer was solved (several live handles); one ice "
+        "object re-parameterised in place (n0, k, a, valid_range assigned on an AntarcticIce / GreenlandIce / the "
+        "package default ice) between two traces, second geometry with beta between the old and new surface index, "
+        "compared with a freshly constructed ice; plus "
         "formula-level requests (z, beta, deep) for the three "
         "closed forms in all three branches and tracer-level requests (r functions at random angles, angle "
         "conversion, expected_solutions); non-trivial = the tracer returned a solution or the formula request "
@@ -1577,6 +1580,7 @@ def search(run, deep):
     cases = case_list(run, n_q if not deep else n_t, n_t, 3)
     h = 0.5
     reuse_cases(run, 24 if not deep else 200)
+    reparam_cases(run, 16 if not deep else 120)
     prev = None      # (input, paths, snapshot) of the previous case: several live handles
     for name, ice, cname, zf, zt, rho, tname, dz in cases:
         if len([v for v in run.violations if not v[1]]) >= 5:
@@ -1714,6 +1718,132 @@ def reuse_sequence(run, name, ice, tname, seq, h=0.5):
                            extra={"reuse_sequence": inp0["reuse_sequence"]})
 
 
+ICE_ATTRS = ("n0", "k", "a", "valid_range")
+
+
+def reflect_or_turn_rho(ice, beta, z_from, z_to):
+    """radial distance of the indirect ray with invariant beta between two depths in `ice` (independent
+    quadrature): surface reflection when beta < n(hi), refractive turn-over otherwise"""
+    hi = float(ice.valid_range[1])
+    n_hi = ice.n0 - ice.k * math.exp(ice.a * hi)
+    if beta < n_hi:
+        return vertical_r(ice, z_from, z_to, False, beta)
+    zt = math.log((ice.n0 - beta) / ice.k) / ice.a
+    if zt <= max(z_from, z_to):
+        return None
+    return turn_leg(ice, beta, z_from, zt, "tan") + turn_leg(ice, beta, z_to, zt, "tan")
+
+
+def reparam_sequence(run, ice, label, first, final_params, second, tname, dz, h=0.5):
+    """ONE ice object: trace `first` = (A, B) with its current parameters, re-parameterise it IN PLACE
+    (ice.n0 / k / a / valid_range assigned), trace `second` with it: the answers must be those of a freshly
+    constructed ice model with the final parameters (compared attribute by attribute and by RK4 in the fresh
+    ice); also ice.index / depth_with_index after the change against the fresh object."""
+    rt, im = _pyrex()
+    initial = [ice.n0, ice.k, ice.a, ice.valid_range[0], ice.valid_range[1]]
+    inp0 = {"ice": ["reparam-final"] + list(final_params), "tracer": tname, "dz": dz, "class": "reparam",
+            "from": list(map(float, second[0])), "to": list(map(float, second[1])),
+            "reparam": {"object": label, "initial": initial, "first": [list(first[0]), list(first[1])]}}
+    try:
+        t1, sols1, _ = solve(tname, first[0], first[1], ice, dz)
+        path_snapshot(sols1)
+        with np.errstate(all="ignore"):
+            ice.depth_with_index(0.9 * ice.n0), ice.index(ice.valid_range[1]), ice.index(ice.valid_range[0])
+    except Exception:
+        pass
+    ice.n0, ice.k, ice.a = final_params[0], final_params[1], final_params[2]
+    ice.valid_range = (final_params[3], final_params[4])
+    fresh = im.AntarcticIce(n0=final_params[0], k=final_params[1], a=final_params[2],
+                            valid_range=(final_params[3], final_params[4]))
+    run.case(("reparam", label, tuple(initial), tuple(final_params), tuple(second[0]), tuple(second[1]), tname, dz))
+    run.count("search_reparam_%s" % label)
+    # the ice object itself
+    ns = [fresh.n0 - fresh.k * math.exp(fresh.a * z) for z in (final_params[4], 0.5 * (final_params[3] + final_params[4]))]
+    probes_n = [ns[0] - 0.01, ns[0] + 0.01, ns[1], fresh.n0 * 0.99999]
+    with np.errstate(all="ignore"):
+        got = [float(ice.depth_with_index(n)) for n in probes_n] + [float(ice.index(final_params[4])), float(ice.index(final_params[3]))]
+        exp = [float(fresh.depth_with_index(n)) for n in probes_n] + [float(fresh.index(final_params[4])), float(fresh.index(final_params[3]))]
+    if not fw.all_close(got, exp, 1e-12, 1e-12):
+        run.fail_input("reparam-ice", inp0, observed=got, expected=exp,
+                       what="depth_with_index / index of a re-parameterised ice object differ from a fresh ice model "
+                            "with the same parameters")
+        # (go on: the traced solutions are compared as well)
+    try:
+        t, sols, _ = solve(tname, second[0], second[1], ice, dz)
+        ref = solve(tname, second[0], second[1], fresh, dz)[:2]
+    except Exception as e:
+        if isinstance(e, ValueError) and "NaN" in str(e):
+            run.count("search_impl_nan_exception")
+            return
+        run.fail_input("exception", inp0, observed="%s: %s" % (type(e).__name__, e),
+                       what="tracer raises with a re-parameterised ice object")
+        return
+    a_, b_ = path_snapshot(sols), path_snapshot(ref[1])
+    with np.errstate(all="ignore"):
+        za = [float(p.z_turn) for p in sols]
+        zb = [float(p.z_turn) for p in ref[1]]
+    if not (len(a_) == len(b_) and all(fw.all_close(x, y, 1e-12, 1e-15) for x, y in zip(a_, b_))
+            and fw.all_close(za, zb, 1e-12, 1e-12)):
+        run.fail_input("reparam", inp0, observed={"paths": a_, "z_turn": za}, expected={"paths": b_, "z_turn": zb},
+                       what="solutions traced with a re-parameterised ice object (%s) differ from those of a fresh "
+                            "ice model with the same parameters" % label)
+        return
+    for p in sols:
+        check_solution(run, "reparam-final", fresh, "reparam", second[0], second[1], tname, dz, ref[0], p, h,
+                       extra={"reparam": inp0["reparam"]})
+
+
+def reparam_cases(run, n):
+    rt, im = _pyrex()
+    south_pole = [1.78, 0.43, 0.0132, -2850, 0]
+    summit = [1.775, 0.448, 0.0247, -3000, 0]
+    default_ice = im.ice
+    saved = {k: getattr(default_ice, k) for k in ICE_ATTRS}
+    try:
+        for i in range(n):
+            if len([v for v in run.violations if not v[1]]) >= 5:
+                break
+            kind = i % 4
+            if kind == 0:
+                ice, label, final = im.AntarcticIce(), "AntarcticIce->summit", list(summit)
+            elif kind == 1:
+                ice, label, final = im.GreenlandIce(), "GreenlandIce->south-pole", list(south_pole)
+            elif kind == 2:
+                for k_, v_ in saved.items():
+                    setattr(default_ice, k_, v_)
+                ice, label = default_ice, "pyrex.ice_model.ice"
+                final = [round(run.rng.uniform(1.6, 1.9), 3), round(run.rng.uniform(0.25, 0.5), 3),
+                         round(10 ** run.rng.uniform(-2.1, -1.6), 4), -2850, 0]
+            else:
+                ice, label = im.AntarcticIce(), "AntarcticIce->random"
+                final = [round(run.rng.uniform(1.6, 1.9), 3), round(run.rng.uniform(0.25, 0.5), 3),
+                         round(10 ** run.rng.uniform(-2.1, -1.6), 4), -round(run.rng.uniform(1500, 3000)),
+                         run.rng.choice([0, 0, -20.0])]
+            fresh = im.AntarcticIce(n0=final[0], k=final[1], a=final[2], valid_range=(final[3], final[4]))
+            hi_new, hi_old = float(final[4]), float(ice.valid_range[1])
+            n_old = ice.n0 - ice.k * math.exp(ice.a * min(hi_old, hi_new))
+            n_new = final[0] - final[1] * math.exp(final[2] * hi_new)
+            # second geometry: an indirect ray whose beta lies between the old and the new surface index (where a
+            # stale edge value changes turning <-> reflecting), or anywhere
+            zf = run.rng.uniform(-600, hi_new - 30)
+            zt = run.rng.uniform(-400, hi_new - 10)
+            n_top = final[0] - final[1] * math.exp(final[2] * max(zf, zt))
+            lo_b, hi_b = min(n_old, n_new), max(n_old, n_new)
+            beta = run.rng.uniform(lo_b, hi_b) if run.rng.random() < 0.7 else run.rng.uniform(0.3, 0.98) * n_top
+            beta = min(beta, 0.995 * n_top)
+            rho = reflect_or_turn_rho(fresh, beta, zf, zt)
+            if rho is None or not 1.0 < rho < 2.0e4:
+                continue
+            A2, B2 = endpoints(run, round(zf, 3), round(zt, 3), rho)
+            g1 = geometry(run, im.AntarcticIce(), run.rng.choice(["shallow", "across", "near_vertical"]))
+            A1, B1 = endpoints(run, *g1) if g1 else (A2, B2)
+            tname = "specialized" if i % 3 else "basic"
+            reparam_sequence(run, ice, label, (A1, B1), final, (A2, B2), tname, run.rng.choice([1, 5]))
+    finally:
+        for k_, v_ in saved.items():
+            setattr(default_ice, k_, v_)
+
+
 def reuse_cases(run, n):
     il = ices(run, 2)
     for i in range(n):
@@ -1752,6 +1882,26 @@ def reuse_cases(run, n):
 def replay(run, data):
     inp = data["input"]
     ice = make_ice(inp["ice"])
+    if "reparam" in inp:
+        rt, im = _pyrex()
+        rp = inp["reparam"]
+        ini = rp["initial"]
+        if rp["object"] == "pyrex.ice_model.ice":
+            obj = im.ice
+            saved = {k: getattr(obj, k) for k in ICE_ATTRS}
+        elif rp["object"].startswith("GreenlandIce"):
+            obj, saved = im.GreenlandIce(), None
+        else:
+            obj, saved = im.AntarcticIce(), None
+        obj.n0, obj.k, obj.a, obj.valid_range = ini[0], ini[1], ini[2], (ini[3], ini[4])
+        try:
+            reparam_sequence(run, obj, rp["object"], (tuple(rp["first"][0]), tuple(rp["first"][1])), inp["ice"][1:6],
+                             (tuple(inp["from"]), tuple(inp["to"])), inp["tracer"], inp["dz"], h=0.25)
+        finally:
+            if saved:
+                for k_, v_ in saved.items():
+                    setattr(obj, k_, v_)
+        return
     if "reuse_sequence" in inp:
         seq = [(tuple(a), tuple(b), d) for a, b, d in inp["reuse_sequence"]]
         reuse_sequence(run, inp["ice"][0], ice, inp["tracer"], seq, h=0.25)
